@@ -44,4 +44,10 @@ META["C03"] = {
     "technique": "property-based testing (rapid) with structure-aware mutation + rapid.MakeFuzz under go fuzzing; oracle: differential against an independent reference verifier",
 }
 
+META["C04"] = {
+    "text": "Exhaustive enumeration of a finite model grid (about 118 000 cells) with spy signers/verifiers that record whether the key was invoked and on which bytes, plus property-based random embedding of the alg cell in large generated headers. The model is the property statement itself; enumeration is the right level because the decision depends only on a small product of discrete factors (structure, origin, operation, alg value kind and Go spelling, external-data class).",
+    "note": TRUST + " Known finding F10 (RawProtected-only headers: alg in the raw bytes is not consulted) is listed in known-findings.txt.",
+    "technique": "exhaustive grid enumeration + property-based testing (rapid); oracle: executable model of the statement with spy keys",
+}
+
 NOT_APPLICABLE = {}
